@@ -9,7 +9,7 @@ CFG = {
     "seq": [("shm", "def", "seq", 40, 400), ("mem", "def", "seq", 25, 250), ("mem", "lim", "seq", 8, 80),
             ("shm", "lim", "seq", 6, 60), ("shm", "def", "malformed", 5, 50)],
     "limit": (4, 30),
-    "conc": "seq", "conc_quick": 10,
+    "conc": "seq", "conc_quick": 5,
     "conc2_quick": (3, 60), "conc2_thorough": (6, None),
     "rand": ("seq", 8, 100),
 }
